@@ -95,13 +95,18 @@ type Client struct {
 	out *bufio.Reader
 }
 
-// StartClient starts cmd/lockprobe (built by the driver into VERIF_TOOLS_DIR).
-func StartClient() (*Client, error) {
+// ToolPath gives the path of a helper binary built by the driver.
+func ToolPath(name string) string {
 	dir := os.Getenv("VERIF_TOOLS_DIR")
 	if dir == "" {
 		dir = "/verif/harness/.build"
 	}
-	cmd := exec.Command(filepath.Join(dir, "lockprobe"))
+	return filepath.Join(dir, name+os.Getenv("VERIF_TOOLS_SUFFIX"))
+}
+
+// StartClient starts cmd/lockprobe (built by the driver into VERIF_TOOLS_DIR).
+func StartClient() (*Client, error) {
+	cmd := exec.Command(ToolPath("lockprobe"))
 	cmd.Stderr = os.Stderr
 	in, err := cmd.StdinPipe()
 	if err != nil {
